@@ -86,14 +86,27 @@ let show_value (v : value) : string =
 let show_status = function
   | Done _ -> "ok" | Insufficient -> "err:insufficient" | Failed -> "err:other" | Panicked -> "panic" | Fuel -> "fuel"
 
-let model_line (c : parsed) : string =
-  let (st, r) = run_model (mf_of c) (ffi_of c) c.strat c.choices c.offered c.sc in
+let observe (c : parsed) (v : variant) : string * sel_state * unit outcome =
+  let (st, r) = add_inputs_from (mf_of c) (ffi_of c) v c.strat c.choices c.offered c.sc in
+  (show_status r ^ " " ^ String.concat " " (ids_of st.st_inputs), st, r)
+
+(* flags (evidence only, stripped before the comparison): +s / +d / +p when the code before the repair of the swap
+   bookkeeping / the duplicate-output association / the pre-step fee would have behaved differently on this case *)
+let flags (c : parsed) (cur : string) : string =
+  let differs v = (try let (o, _, _) = observe c v in o <> cur with Miss _ -> true) in
+  (if differs { v_swap_fixed = false; v_assoc_once = true; v_prestep_fee = true } then "+s" else "") ^
+  (if differs { v_swap_fixed = true; v_assoc_once = false; v_prestep_fee = true } then "+d" else "") ^
+  (if differs { v_swap_fixed = true; v_assoc_once = true; v_prestep_fee = false } then "+p" else "")
+
+let model_line ?(with_flags = false) (c : parsed) : string =
+  let (o, st, r) = observe c current in
   let idl = ids_of st.st_inputs in
   let x = (match explicit_input st with Ok v -> show_value v | _ -> "err") in
   let f = (match r with
       | Done _ -> (match mf_of c st.st_inputs with Ok f -> string_of_n f | _ -> "err")
       | _ -> "-") in
-  show_status r ^ " I " ^ string_of_int (List.length idl) ^ String.concat "" (List.map (fun s -> " " ^ s) idl)
+  show_status r ^ (if with_flags then flags c o else "")
+  ^ " I " ^ string_of_int (List.length idl) ^ String.concat "" (List.map (fun s -> " " ^ s) idl)
   ^ " X " ^ x ^ " F " ^ f
 
 (* the implementation's line: <status> I <n> ids… X <value|err> F <fee|err|-> *)
@@ -138,6 +151,6 @@ let () =
   if Array.length Sys.argv > 1 && Sys.argv.(1) = "serve" then serve ()
   else run_driver (fun toks impl ->
     let c = parse_case toks in
-    let m = (try model_line c with Miss s -> "oracle-miss " ^ s) in
+    let m = (try model_line ~with_flags:true c with Miss s -> "oracle-miss " ^ s) in
     let v = (match impl with [] -> "na" | _ -> (try verdict_of c impl with Failure _ -> "fails:-")) in
     (m, v))
